@@ -22,15 +22,15 @@ private theorem dec_natCast_le (a b : Nat) : decide ((a : Int) ≤ (b : Int)) = 
 /-! ### batching persisters (C08, C10) -/
 
 theorem noFlush_leaves :
-    Gen.dbNoFlushNeeded_leaves = ["s.sizeBatch : Int", "s.maxBatchSize : Int"] ∧
-    Gen.serialNoFlushNeeded_leaves = ["s.sizeBatch : Int", "s.maxBatchSize : Int"] := ⟨rfl, rfl⟩
+    Gen.dbNoFlushNeeded_leaves = ["s.maxBatchSize : Int", "s.sizeBatch : Int"] ∧
+    Gen.serialNoFlushNeeded_leaves = ["s.maxBatchSize : Int", "s.sizeBatch : Int"] := ⟨rfl, rfl⟩
 
 /-- `updateBatchWithIncrement` of both persisters: after `sizeBatch++` the batch is flushed unless `sizeBatch < maxBatchSize` — the
     model's `P.bump` -/
 theorem bump_eq (p : Persist.P) :
-    p.bump = (if Gen.dbNoFlushNeeded p.sizeBatch p.maxBatch then { p with sizeBatch := p.sizeBatch + 1 }
+    p.bump = (if Gen.dbNoFlushNeeded (s_sizeBatch := p.sizeBatch) (s_maxBatchSize := p.maxBatch) then { p with sizeBatch := p.sizeBatch + 1 }
               else ({ p with sizeBatch := p.sizeBatch + 1 } : Persist.P).flush) ∧
-    Gen.serialNoFlushNeeded p.sizeBatch p.maxBatch = Gen.dbNoFlushNeeded p.sizeBatch p.maxBatch := by
+    Gen.serialNoFlushNeeded (s_sizeBatch := p.sizeBatch) (s_maxBatchSize := p.maxBatch) = Gen.dbNoFlushNeeded (s_sizeBatch := p.sizeBatch) (s_maxBatchSize := p.maxBatch) := by
   refine ⟨?_, rfl⟩
   unfold Persist.P.bump Gen.dbNoFlushNeeded
   have : (decide (((p.sizeBatch : Int) + 1) < (p.maxBatch : Int))) = decide (p.sizeBatch + 1 < p.maxBatch) := by
